@@ -49,15 +49,15 @@ Inductive task :=
 | TCProbe (call : N) (c : cid) (t : option timer)
 | TCOpenRecv (call : N) (c : cid) (t : option timer)
 | TReadStart (ws : bool)
-| TRGet (h : hid) (t : timer)
-| TRWs (c : cid) (t : timer)
-| TRJoinW
+| TRGet (h : hid) (t : timer) (ep : N)
+| TRWs (c : cid) (t : timer) (ep : N)
+| TRJoinW (w : tid) (ep : N)
 | TWriteStart
 | TWGet (t : timer) (ep : N)
 | TWPost (h : hid) (t : timer) (n : nat) (ep : N)
-| TDJoin (k : djoin)
+| TDJoin (k : djoin) (r : tid)
 | THMsg (m : N) (a : hact)
-| TWait (call : N).
+| TWait (call : N) (r : tid).
 Record tentry := { t_task : task; t_tout : bool }.
 
 Record wsrec := { w_inbox : list frame; w_srv_closed : bool; w_cli_closed : bool; w_waiter : option tid }.
@@ -138,8 +138,8 @@ Definition new_timer (dt : Z) : M timer := fun s => ((now s + dt, tseq s), set_t
 Definition alive (t : tid) : M bool := fun s => (match alookup t (tasks s) with Some _ => true | None => false end, s, []).
 Definition joiner_of (t : tid) (s : st) (e : tid * tentry) : option tid :=
   match t_task (snd e) with
-  | TRJoinW => if match write_task s with Some w => N.eqb w t | None => false end then Some (fst e) else None
-  | TDJoin _ | TWait _ => if match read_task s with Some r => N.eqb r t | None => false end then Some (fst e) else None
+  | TRJoinW w _ => if N.eqb w t then Some (fst e) else None
+  | TDJoin _ r | TWait _ r => if N.eqb r t then Some (fst e) else None
   | _ => None
   end.
 Fixpoint wake_all (l : list tid) : M unit := match l with [] => ret tt | t :: r => wake t ;;; wake_all r end.
@@ -177,8 +177,8 @@ Definition ws_close (c : cid) : M unit :=
        match w_waiter w with Some t => wake t | None => ret tt end.
 Definition ws_can_send (c : cid) : M bool := w <- gws c ;; ret (negb (w_cli_closed w || w_srv_closed w)).
 
-(* disconnect(abort, reason).  Returns true if the caller must now wait for the read loop (join) *)
-Definition disconnect_core (me : tid) (abort : bool) (r : reason) : M bool :=
+(* disconnect(abort, reason).  Returns the read-loop task the caller must now wait for (join), if any *)
+Definition disconnect_core (me : tid) (abort : bool) (r : reason) : M (option tid) :=
   s <- getst ;;
   match state s with
   | Connected =>
@@ -190,11 +190,11 @@ Definition disconnect_core (me : tid) (abort : bool) (r : reason) : M bool :=
     match abort, read_task s1 with
     | false, Some rt =>
       a <- alive rt ;;
-      if a && negb (N.eqb rt me) then ret true
-      else modst (set_state Disconnected) ;;; reset ;;; ret false
-    | _, _ => modst (set_state Disconnected) ;;; reset ;;; ret false
+      if a && negb (N.eqb rt me) then ret (Some rt)
+      else modst (set_state Disconnected) ;;; reset ;;; ret None
+    | _, _ => modst (set_state Disconnected) ;;; reset ;;; ret None
     end
-  | _ => reset ;;; ret false
+  | _ => reset ;;; ret None
   end.
 Definition disconnect_finish : M unit := modst (set_state Disconnected) ;;; reset.
 
@@ -220,33 +220,36 @@ Definition http_request (me : tid) (k : rkind) (body : list ck) : M hid :=
 Definition http_take (h : hid) : M (option hreply) :=
   fun s => (match alookup h (https s) with Some r => h_reply r | None => None end, set_https (adel h (https s)) s, []).
 
-(* ---- read loops ---- *)
-Definition read_epilogue (me : tid) : M unit :=
-  (* after the loop: wait for the write loop, then report a transport error if nobody disconnected *)
+(* ---- read loops ----  `ep` identifies the connection (its queue) the loop was started for *)
+Definition read_final (me : tid) (ep : N) : M unit :=
+  (* report a transport error if nobody has disconnected this connection yet (fix D33: this connection, not a later one) *)
+  (s1 <- getst ;;
+   match state s1 with
+   | Connected => if N.eqb (qepoch s1) ep then emit (OEv (EvDisconnect RTransportError)) ;;; reset else ret tt
+   | _ => ret tt
+   end) ;;; finish me.
+Definition read_epilogue (me : tid) (ep : N) : M unit :=
+  (* after the loop: wait for the write loop of the moment *)
   s <- getst ;;
-  w <- (match write_task s with Some w => alive w | None => ret false end) ;;
-  if w then block me TRJoinW
-  else
-    (s1 <- getst ;;
-     match state s1 with
-     | Connected => emit (OEv (EvDisconnect RTransportError)) ;;; reset
-     | _ => ret tt
-     end) ;;; finish me.
+  match write_task s with
+  | Some w => a <- alive w ;; if a then block me (TRJoinW w ep) else read_final me ep
+  | None => read_final me ep
+  end.
 
-Definition read_poll_next (me : tid) : M unit :=
+Definition read_poll_next (me : tid) (ep : N) : M unit :=
   s <- getst ;;
   match state s, write_task s with
   | Connected, Some _ =>
-    h <- http_request me KindPoll [] ;; t <- new_timer (poll_timeout s) ;; block me (TRGet h t)
-  | _, _ => read_epilogue me
+    h <- http_request me KindPoll [] ;; t <- new_timer (poll_timeout s) ;; block me (TRGet h t ep)
+  | _, _ => read_epilogue me ep
   end.
 
-Definition read_poll_reply (me : tid) (tout : bool) (h : hid) : M unit :=
+Definition read_poll_reply (me : tid) (ep : N) (tout : bool) (h : hid) : M unit :=
   r <- http_take h ;;
   match (if tout then Some HFail else r) with
   | None => ret tt                                        (* spurious wake-up: cannot happen *)
-  | Some (HOk l) => receive_all me l ;;; read_poll_next me
-  | Some _ => q_put QEnd ;;; read_epilogue me
+  | Some (HOk l) => receive_all me l ;;; read_poll_next me ep
+  | Some _ => q_put QEnd ;;; read_epilogue me ep
   end.
 
 Definition ws_take (c : cid) : M (option (option frame)) :=
@@ -260,19 +263,19 @@ Definition ws_wait (me : tid) (c : cid) (k : task) : M unit :=
   w <- gws c ;; pws c {| w_inbox := w_inbox w; w_srv_closed := w_srv_closed w; w_cli_closed := w_cli_closed w; w_waiter := Some me |} ;;; block me k.
 
 (* `top` = at the head of `while self.state == 'connected'`; otherwise recv() has just returned *)
-Fixpoint read_ws_loop (fuel : nat) (me : tid) (c : cid) (top : bool) : M unit :=
+Fixpoint read_ws_loop (fuel : nat) (me : tid) (ep : N) (c : cid) (top : bool) : M unit :=
   match fuel with
   | O => emit OOutOfFuel
   | S f =>
     s <- getst ;;
-    if top && negb (match state s with Connected => true | _ => false end) then read_epilogue me
+    if top && negb (match state s with Connected => true | _ => false end) then read_epilogue me ep
     else
       x <- ws_take c ;;
       match x with
-      | None => t <- new_timer (interval s + ptimeout s) ;; ws_wait me c (TRWs c t)
-      | Some None => q_put QEnd ;;; read_epilogue me
-      | Some (Some FrGarbage) => q_put QEnd ;;; read_epilogue me
-      | Some (Some (FrPk p)) => receive_packet me p ;;; read_ws_loop f me c true
+      | None => t <- new_timer (interval s + ptimeout s) ;; ws_wait me c (TRWs c t ep)
+      | Some None => q_put QEnd ;;; read_epilogue me ep
+      | Some (Some FrGarbage) => q_put QEnd ;;; read_epilogue me ep
+      | Some (Some (FrPk p)) => receive_packet me p ;;; read_ws_loop f me ep c true
       end
   end.
 
@@ -424,11 +427,13 @@ Definition run_api (me : tid) (call : N) (x : api) : M unit :=
   | ASend m b => send_packet (CkMsg m b) ;;; emit (ORet call ROk) ;;; finish me
   | ADisconnect =>
     w <- disconnect_core me false RClient ;;
-    if w then block me (TDJoin (DJApi call)) else (emit (ORet call ROk) ;;; finish me)
+    match w with Some rt => block me (TDJoin (DJApi call) rt) | None => emit (ORet call ROk) ;;; finish me end
   | AWait =>
     s <- getst ;;
-    a <- (match read_task s with Some r => alive r | None => ret false end) ;;
-    if a then block me (TWait call) else (emit (ORet call ROk) ;;; finish me)
+    match read_task s with
+    | Some r => a <- alive r ;; if a then block me (TWait call r) else (emit (ORet call ROk) ;;; finish me)
+    | None => emit (ORet call ROk) ;;; finish me
+    end
   end.
 
 Definition echo_mid (m : N) : N := (1000000 + m)%N.
@@ -439,32 +444,30 @@ Definition run_task (me : tid) (e : tentry) : M unit :=
   | TCWsConn call c upgrade _ => wsconn_reply me call (t_tout e) c upgrade
   | TCProbe call c _ => probe_reply me call (t_tout e) c
   | TCOpenRecv call c _ => openrecv_reply me call (t_tout e) c
-  | TReadStart false => read_poll_next me
-  | TReadStart true => s <- getst ;; match ws s with Some c => w <- gws c ;; read_ws_loop (S (S (length (w_inbox w)))) me c true | None => read_epilogue me end
-  | TRGet h _ => read_poll_reply me (t_tout e) h
-  | TRWs c _ =>
-    if t_tout e then (q_put QEnd ;;; read_epilogue me)
-    else (w <- gws c ;; read_ws_loop (S (S (length (w_inbox w)))) me c false)
-  | TRJoinW => read_epilogue me
+  | TReadStart false => s <- getst ;; read_poll_next me (qepoch s)
+  | TReadStart true => s <- getst ;; match ws s with Some c => w <- gws c ;; read_ws_loop (S (S (length (w_inbox w)))) me (qepoch s) c true | None => read_epilogue me (qepoch s) end
+  | TRGet h _ ep => read_poll_reply me ep (t_tout e) h
+  | TRWs c _ ep =>
+    if t_tout e then (q_put QEnd ;;; read_epilogue me ep)
+    else (w <- gws c ;; read_ws_loop (S (S (length (w_inbox w)))) me ep c false)
+  | TRJoinW w ep => a <- alive w ;; if a then block me (TRJoinW w ep) else read_final me ep
   | TWriteStart => s <- getst ;; write_loop (S (S (length (queue s)))) me (qepoch s) true false
   | TWGet _ ep => s <- getst ;; (if N.eqb (qepoch s) ep then modst (set_getter None) else ret tt) ;;; write_loop (S (S (length (queue s)))) me ep false (t_tout e)
   | TWPost h _ _ ep => write_post_reply me ep (t_tout e) h
-  | TDJoin k =>
-    s <- getst ;;
-    a <- (match read_task s with Some r => alive r | None => ret false end) ;;
-    if a then block me (TDJoin k)
+  | TDJoin k r =>
+    a <- alive r ;;
+    if a then block me (TDJoin k r)
     else disconnect_finish ;;; (match k with DJApi call => emit (ORet call ROk) | DJHandler => ret tt end) ;;; finish me
   | THMsg m a =>
     emit (OEv (EvMessage m)) ;;;
     match a with
     | HNone | HRaise => finish me
     | HSend => send_packet (CkMsg (echo_mid m) false) ;;; finish me
-    | HDisc => w <- disconnect_core me false RClient ;; if w then block me (TDJoin DJHandler) else finish me
+    | HDisc => w <- disconnect_core me false RClient ;; match w with Some rt => block me (TDJoin DJHandler rt) | None => finish me end
     end
-  | TWait call =>
-    s <- getst ;;
-    a <- (match read_task s with Some r => alive r | None => ret false end) ;;
-    if a then block me (TWait call) else (emit (ORet call ROk) ;;; finish me)
+  | TWait call r =>
+    a <- alive r ;;
+    if a then block me (TWait call r) else (emit (ORet call ROk) ;;; finish me)
   end.
 
 Fixpoint settle (fuel : nat) : M unit :=
@@ -485,7 +488,7 @@ Fixpoint settle (fuel : nat) : M unit :=
 
 Definition timer_of (k : task) : option timer :=
   match k with
-  | TCOpenGet _ _ t _ | TCWsConn _ _ _ t | TRGet _ t | TRWs _ t | TWGet t _ | TWPost _ t _ _ => Some t
+  | TCOpenGet _ _ t _ | TCWsConn _ _ _ t | TRGet _ t _ | TRWs _ t _ | TWGet t _ | TWPost _ t _ _ => Some t
   | TCProbe _ _ t | TCOpenRecv _ _ t => t
   | _ => None
   end.
